@@ -78,6 +78,8 @@ def conv_pairs(names):
                 key.append(('order', '2', l[1]))
             elif l[0] in ('linear', 'nearest'):
                 key.append(('interp', l[1]))
+            elif l[0] == 'array':
+                key.append(('array', l[1]))      # the stored scalar type may differ: conversions copy component by component
             else:
                 key.append(tuple(l))
         # the layers that implement a converting constructor: storage orders, interpolators, affine
@@ -98,7 +100,7 @@ def run(replay=None):
         'well-kinded side: stacks from the layer grammar with pairwise layer-adjacency coverage (every ordered pair of layer kinds that may be adjacent, over every kind of primitive and storage order), the catalogue and seeded '
         'random stacks to depth 5; for each the generic harness instantiates THE WHOLE API in one translation unit (construction from a parameter pack of owning data and through make_parameter_pack_for, field_view, at() in both forms, '
         'write through the view where the output is a reference, get_configuration / get_backend chain, dump, load, copy / move construction and assignment, destruction, static_assert that the view is trivially copyable and that the '
-        'stack satisfies concepts::field_backend) and compatible-stack conversions in copying and moving form; g++ -std=c++20 must accept it whenever the model says kind_of = Some and the view fits the stated 256-byte bound (measured with sizeof). '
+        'stack satisfies concepts::field_backend) and compatible-stack conversions in copying and moving form (also across stored precision); g++ -std=c++20 must accept it whenever the model says kind_of = Some and the view fits the stated 256-byte bound (measured with sizeof). '
         'Ill-kinded side: a catalogue of compositions violating each STATED kind (static_asserts and concept constraints of the layers and of field_view) must be rejected, with a well-kinded control through the same translation-unit template. '
         'A case = one (stack or conversion, API) instantiation; non-trivial = at least one transformer layer; distinct by stack name.')
     chk.prove('Properties_C13.v')
@@ -136,6 +138,14 @@ def run(replay=None):
     convs = conv_pairs(fits)
     if not thorough:
         convs = r.shuffle(convs)[:40]
+    # conversions that also change the stored precision (component-wise copy with a float <-> double conversion), both directions
+    XPREC = [('strided.2.u64/array.2.f32', 'morton.2.u64.p/array.2.f64'), ('morton.2.u64.b/array.1.f64', 'strided.2.u64/array.1.f32'),
+             ('strided.2.u64/array.3.f32', 'hilbert.u64/array.3.f64'), ('hilbert.u64/array.1.f32', 'morton.2.u64.p/array.1.f64'),
+             ('linear.f32/strided.3.u64/array.2.f32', 'nearest.f32/morton.3.u64.p/array.2.f64'), ('affine/linear.f32/strided.2.u64/array.1.f64', 'affine/linear.f32/morton.2.u64.b/array.1.f32')]
+    for a_, b_ in XPREC:
+        if stacks.kind_of(a_) is not None and stacks.kind_of(b_) is not None:
+            convs += [(a_, b_), (b_, a_)]
+    convs = list(dict.fromkeys(convs))
     with core.Lock('harness'):
         exes, failed = stacks.build_stack_harness('api', fits, 'syntax', shard_size=6)
         bad = {}
